@@ -1571,19 +1571,27 @@ class Evaluator:
         return out
 
 
-_METHODS_CACHE = {}
+def project_cache(project, name):
+    """A per-project cache dictionary.  Kept *on* the project object: a module-level table keyed by id(project) hands a new
+    project the entries of a dead one whose address it happens to reuse (the self-test analyses hundreds of source variants
+    in one process)."""
+    caches = getattr(project, "_analysis_caches", None)
+    if caches is None:
+        caches = {}
+        try:
+            project._analysis_caches = caches
+        except Exception:
+            return {}
+    return caches.setdefault(name, {})
 
 
 def _methods_named(project, name):
-    key = id(project)
-    tab = _METHODS_CACHE.get(key)
-    if tab is None:
-        tab = {}
+    tab = project_cache(project, "methods-by-name")
+    if not tab:
         for q, fn in project.funcs.items():
             if getattr(fn, "cls", None) is not None and getattr(fn, "parent", None) is None and not name_is_dunder(fn.node.name):
                 tab.setdefault(fn.node.name, []).append(fn)
-        _METHODS_CACHE.clear()
-        _METHODS_CACHE[key] = tab
+        tab.setdefault("<built>", [])
     return tab.get(name, [])
 
 
@@ -1797,19 +1805,14 @@ def module_env(project, modname, ev=None):
     return env
 
 
-_MODENV_CACHE = {}
-
-
 def _cached_module_env(project, modname):
-    key = (id(project), modname)
-    if key not in _MODENV_CACHE:
-        if len(_MODENV_CACHE) > 64:
-            _MODENV_CACHE.clear()
+    tab = project_cache(project, "module-env")
+    if modname not in tab:
         try:
-            _MODENV_CACHE[key] = module_env(project, modname)
+            tab[modname] = module_env(project, modname)
         except Exception:
-            _MODENV_CACHE[key] = {}
-    return _MODENV_CACHE[key]
+            tab[modname] = {}
+    return tab[modname]
 
 
 def make_evaluator(project, modname, inline_names=(), inline_local=False, no_inline=()):
